@@ -50,7 +50,7 @@ def main():
         m = re.match(r"fixed: property=(C\d+) ([0-9a-f]{7})", line)
         if m:
             commit_props.setdefault(m.group(2), []).append(m.group(1))
-    extra = {"b1d0e63": ["C04", "C05"], "f54c457": ["C03", "C02"], "7d4ad41": ["C11", "C01"], "38b5097": ["C02", "C20"]}
+    extra = {"b491934": ["C09", "C02"], "b1d0e63": ["C04", "C05"], "f54c457": ["C03", "C02"], "7d4ad41": ["C11", "C01"], "38b5097": ["C02", "C20"]}
     results = []
     for p in sorted(glob.glob(os.path.join(ROOT, "mutants", "revert-*.patch"))):
         c = os.path.basename(p).split("-")[1]
